@@ -94,7 +94,8 @@ Record eq_obs := mk_eq_obs {
   eo_full : bool;                  (* FilteredOrderedAttributeMap::operator== *)
   eo_hash : hrel;
   eo_series : bool;                (* both measurements returned the same aggregation of one AttributesHashMap *)
-  eo_paths : bool                  (* processor->process(kvs) built the same map and hash as MetricAttributes{kvs, processor} *)
+  eo_paths : bool;                 (* processor->process(kvs) built the same map as MetricAttributes{kvs, processor} *)
+  eo_phash : bool                  (* ... and the same cached hash *)
 }.
 Definition eq_clauses (f : afilter) (a b : list (bytes * ival)) (o : eq_obs) : list tok :=
   let eq := sets_equal f a b in
@@ -103,7 +104,8 @@ Definition eq_clauses (f : afilter) (a b : list (bytes * ival)) (o : eq_obs) : l
   check (Bool.eqb (eo_series o) eq) (if nan then "same_series_iff_equal_maps:nan_value" else "same_series_iff_equal_maps:pair") ++
   check (Bool.eqb (eo_full o) eq) (if nan then "same_series_iff_equal_maps:nan_value" else "same_series_iff_equal_maps:operator_eq") ++
   check (negb eq || match eo_hash o with HSame => true | HDiff => false | HNa => nan end) "equal_maps_equal_hash:differ" ++
-  check (eo_paths o) "filter_by_full_key:process_path_differs".
+  check (eo_paths o) "filter_by_full_key:process_path_differs" ++
+  check (eo_phash o) "equal_maps_equal_hash:process_path_hash".
 
 (* ------------------------------------------------------------------ clauses on the reports of a storage over a history *)
 (* the accepted measurements so far, oldest first: attribute pairs and the value that counts *)
